@@ -463,6 +463,17 @@ Theorem C17_bypass_routing : forall (c : @config R) (p : @params R) (s : @state 
 Proof. exact routing_by_bypass. Qed.
 Print Assumptions C17_bypass_routing.
 
+(* ---- round 4 ---------------------------------------------------------------------------------------------------- *)
+(* the input checks of init_extended_Lagrangian (valid_config) are sufficient for a well-defined integrator: positive force constant and
+   mass with the documented period and fluctuation, non-negative friction, thermostat on exactly when the damping is not zero *)
+Theorem C17_valid_config_params : forall c : @config R,
+  0 < c_kB c -> valid_config Rops c = true ->
+  let p := init_params Rops PI c in
+  0 < p_k p /\ 0 < p_m p /\ 0 <= p_gamma p /\ (p_langevin p = true <-> c_damping c <> 0) /\
+  2 * PI * sqrt (p_m p / p_k p) = c_tau c /\ sqrt (c_kB c * c_temp c / p_k p) = c_tol c.
+Proof. exact valid_config_params. Qed.
+Print Assumptions C17_valid_config_params.
+
 (* ---- the premises are satisfiable ------------------------------------------------------------------------------- *)
 Definition ex_c : @config R := mkConfig 1 1 1 16 0 (1 / 2) 2%Z 0 1 false false 1 None false false.     (* factor 2, no boundary *)
 Definition ex_cr : @config R := mkConfig 1 1 1 16 0 1 1%Z 0 1 true true 1 None false false.      (* both boundaries reflecting *)
@@ -573,3 +584,8 @@ Example ex_bypass_premises : exists e, In e bypass_table.
 Proof. pose proof bypass_table_wf as H. destruct bypass_table as [| e t]; [discriminate H | exists e; left; reflexivity]. Qed.
 Example ex_route_premises : i_fb (mkInput 0%Z 0 0 1 0 true) = fst (route_bias Rops true 1) /\ i_fba (mkInput 0%Z 0 0 1 0 true) = snd (route_bias Rops true 1).
 Proof. split; reflexivity. Qed.
+Example ex_valid_config : 0 < c_kB ex_c /\ valid_config Rops ex_c = true.
+Proof.
+  split; [cbn; lra | ]. unfold valid_config. cbn [nltb n0 Rops c_temp c_tol c_tau c_damping ex_c].
+  rewrite !(proj2 (Rltb_true _ _)) by lra. rewrite (proj2 (Rltb_false _ _)) by lra. reflexivity.
+Qed.
